@@ -857,6 +857,9 @@ func reachingStores(at ssa.Instruction, a *ssa.Alloc) []*ssa.Store {
 	return out
 }
 
+// ReachingStores is the exported form of reachingStores.
+func ReachingStores(at ssa.Instruction, a *ssa.Alloc) []*ssa.Store { return reachingStores(at, a) }
+
 // BlockPath is a sequence of blocks.
 type BlockPath []*ssa.BasicBlock
 
